@@ -38,6 +38,7 @@ var checker = &vk.Checker[Case]{
 	Rule: "histories on one to three TailBitmaps that are alive at the same time (after every step the untouched ones are checked too), each from NewTailBitmap(o), o in {0,64,128,64*r up to 2^40, 2^37}, of <= 60 (thorough <= 400) steps drawn state-dependently from a model: Set(idx) below Offset / at Offset / inside word 0 / the LAST missing bit of word 0 (forces compaction) / inside word k>0 / up to 8 (thorough 64) words past the end / more than 1024 words (the initial capacity) past the end / repeats; " +
 		"macro steps FillWord(k, front-to-back | back-to-front | permuted) and FillThrough(m words), m in {1,2,3,1023,1024,1025} (crossing the 1024-word reclaim threshold); Compact. Model = o + set of explicitly set indexes. After EVERY step: Offset%64==0, Offset monotone, Offset <= first model zero, first stored word not all-ones after a Set, " +
 		"Get1/Get == model over [max(0,Offset-130), end of stored words) (all positions when <= 4096, else boundaries, each word's first/last bit and 512 keyed positions), highest set index below Offset or inside the stored words, Compact changes no Get result. " +
+		"One fixed history grows a stored tail beyond 2^31 bits (thorough: beyond 2^32) while word 0 stays incomplete, probed at its ends, around 2^31/2^32 and at every set index. " +
 		"Non-trivial: the history advanced Offset at least once and afterwards a stored word (which holds a 0 bit) was probed. Distinct by hash of the history.",
 	Check:    check,
 	Classify: classify,
@@ -186,8 +187,33 @@ func check(c Case) *vk.Failure {
 		for j := lo; j < tb.Offset+64 && j < hi; j++ {
 			js = append(js, j)
 		}
-		for w := int64(0); w < int64(len(tb.Words)); w++ {
-			js = append(js, tb.Offset+64*w, tb.Offset+64*w+63)
+		if nw := int64(len(tb.Words)); nw <= 1<<16 {
+			for w := int64(0); w < nw; w++ {
+				js = append(js, tb.Offset+64*w, tb.Offset+64*w+63)
+			}
+		} else { // a huge tail (2^25 words and more): the first and last words, the words around 2^31 and 2^32 bits, every set index and keyed words
+			ws := []int64{}
+			for w := int64(0); w < 64; w++ {
+				ws = append(ws, w, nw-1-w, 1<<25-32+w, 1<<26-32+w)
+			}
+			for i := 0; i < 2048; i++ {
+				ws = append(ws, int64(vk.Mix(uint64(c.ProbeKey)+uint64(stepNo)*7919+uint64(i))%uint64(nw)))
+			}
+			for _, w := range ws {
+				if w >= 0 && w < nw {
+					js = append(js, tb.Offset+64*w, tb.Offset+64*w+63, tb.Offset+64*w+int64(vk.Mix(uint64(w))%64))
+				}
+			}
+			if len(m.set) <= 4096 {
+				for j := range m.set {
+					for _, d := range []int64{-64, -1, 0, 1, 64} {
+						if j+d >= lo && j+d < hi {
+							js = append(js, j+d)
+						}
+					}
+				}
+				sort.Slice(js, func(a, b int) bool { return js[a] < js[b] }) // (map order must not decide the order of the probes)
+			}
 		}
 		js = append(js, hi-1, hi-2, hi-64)
 		if m.maxSet >= lo && m.maxSet < hi {
@@ -489,4 +515,11 @@ func TestGrid(t *testing.T) {
 	for _, c := range scen {
 		checker.Run(t, c)
 	}
+	// a stored tail longer than 2^31 bits (thorough: longer than 2^32 bits): word 0 stays incomplete, so Offset cannot advance
+	huge := Case{O: 64, Class: "scenario-huge-tail", ProbeKey: 4, Ops: []Op{{K: "set", A: 64 + 5}, {K: "set", A: 64 + 1<<31 + 77}, {K: "set", A: 64 + 1<<31 - 1}, {K: "set", A: 64 + 1<<31},
+		{K: "set", A: 64 + 1<<30 + 3}, {K: "compact"}, {K: "set", A: 64 + 1<<31 + 64*3 + 9}, {K: "set", A: 64 + 6}}}
+	if vk.Pick(false, true) {
+		huge.Ops = append(huge.Ops, Op{K: "set", A: 64 + 1<<32 + 3}, Op{K: "set", A: 64 + 1<<32 - 1}, Op{K: "compact"}, Op{K: "set", A: 64 + 1<<32 + 64 + 63})
+	}
+	checker.Run(t, huge)
 }
